@@ -219,7 +219,19 @@ def check_tree(ctx, u, lab, m):
             # the child is enqueued under its own predicate only (plus its non-null test)
             other = '%s.at(%s.dim)' % (highp if kind_ == 'before' else lowp, node_)
             okc = okc and not any(b_ == other for a_, o_, b_ in rs_ if o_ != 'truth')
-        ctx.check(okc, R, '%s|%s|children' % (lab, nm), f, 'children enqueued under their own predicate', 'child enqueue sites / conditions changed: %s' % sorted((k_, len(v_)) for k_, v_ in by_kind.items()))
+            # ... and not only when the sibling was not: an else-branch of the sibling's test skips this
+            # subtree whenever the box straddles the split
+            sib = 'after_or_equal' if kind_ == 'before' else 'before'
+            lp_ = enclosing(c_, LOOPS)
+            for ft in (path_facts(c_) if len(by_kind[kind_]) == 1 else ()):
+                if ft.pol is False and lp_ is not None and ft.cond.get('_off', 0) > lp_.get('_off', 0):
+                    txt_ = _sl(nf(ft.cond), c_)
+                    if ('%s.%s' % (node_, sib)) in txt_ or other in txt_:
+                        ctx.bad(R, '%s|%s|%s-independent' % (lab, nm, lab_k), c_, 'the `%s` child is enqueued only when `%s` is false: when the box straddles the split and the `%s` child exists, the `%s` subtree is never searched and entries inside the box are missed' % (kind_, src_text(ft.cond, 60), sib, kind_))
+        if any(len(v_) > 1 for v_ in by_kind.values()):
+            ctx.undecided(R, '%s|%s|children' % (lab, nm), f, 'a child is enqueued at several sites (a case split the rule does not combine): %s' % sorted((k_, len(v_)) for k_, v_ in by_kind.items()))
+        else:
+            ctx.check(okc, R, '%s|%s|children' % (lab, nm), f, 'children enqueued under their own predicate', 'child enqueue sites / conditions changed: %s' % sorted((k_, len(v_)) for k_, v_ in by_kind.items()))
         node_ = pushes[0][2]
         box = [x for x in walk(body_of(f)) if x.get('kind') == 'IfStmt' and any(y.get('kind') == 'BreakStmt' for y in walk(if_parts(x)[1])) and enclosing(x, LOOPS) is not None and
                any(('%s.at(' % lowp) in nf(y) or ('%s.at(' % highp) in nf(y) for y in [if_parts(x)[0]])]
@@ -268,11 +280,110 @@ def check_tree(ctx, u, lab, m):
     exits = [x for x in walk(loop_body(lp[0])) if x.get('kind') in ('BreakStmt', 'ReturnStmt', 'ContinueStmt', 'GotoStmt')]
     ctx.check(not exits and nf(while_parts(lp[0])[0]) == '!pending.empty()', R, lab + '|min_max|full-scan', exits[0] if exits else lp[0], 'the search runs until the frontier is empty',
               'the min/max search leaves its loop early (%s): branches already queued by an ancestor that splits on another axis are skipped and a non-minimal replacement is installed' % (src_text(exits[0], 40) if exits else ''))
-    prune = sorted((nf(if_parts(x)[0]), nf(stmts_of(if_parts(x)[1])[0])) for x in walk(loop_body(lp[0])) if x.get('kind') == 'IfStmt' and any(call_name(c) == 'emplace_back' for c in walk(if_parts(x)[1]) if c.get('kind') == 'CXXMemberCallExpr'))
-    want = [('(((n.dim != target_dim) || !find_max) && n.before)', 'pending.emplace_back(n.before)'), ('(((n.dim != target_dim) || find_max) && n.after_or_equal)', 'pending.emplace_back(n.after_or_equal)')]
-    ctx.check(prune == sorted(want), R, lab + '|min_max|pruning', lp[0], 'at a node splitting on the target dimension, min looks only in before and max only in after_or_equal', 'pruning conditions are %s' % prune)
-    upd = sorted((nf(if_parts(x)[0]),) for x in walk(loop_body(lp[0])) if x.get('kind') == 'IfStmt' and any(nf(s) == '(ret = n)' for s in stmts_of(if_parts(x)[1])))
-    ctx.check(upd == [('(n.pt.at(target_dim) < ret.pt.at(target_dim))',), ('(ret.pt.at(target_dim) < n.pt.at(target_dim))',)], R, lab + '|min_max|update', lp[0], 'strict improvement updates the candidate', 'candidate update tests are %s' % upd)
+    # pruning, read as boolean functions of S = (n->dim == target_dim), M = find_max and the child pointer:
+    # a child is queued only when it exists, and always when it can hold the extreme
+    # (before unless S && M, after_or_equal unless S && !M); named boolean locals are expanded
+    from poly import Poly as _Poly
+    PM_ = _Poly(fm, u)
+
+    class _Unk(Exception):
+        pass
+
+    def bval(e, asg, depth=0):
+        e = strip(e)
+        while e is not None and e.get('kind') in ('ImplicitCastExpr', 'ParenExpr', 'ExprWithCleanups') and kids(e):
+            e = strip(kids(e)[0])
+        k = e.get('kind')
+        c = nf(e)
+        if c in ('find_max',):
+            return asg['M']
+        if c in ('n.before', 'n.after_or_equal'):
+            return asg[c]
+        if c in ('(n.dim == target_dim)', '(target_dim == n.dim)'):
+            return asg['S']
+        if c in ('(n.dim != target_dim)', '(target_dim != n.dim)'):
+            return not asg['S']
+        if k == 'BinaryOperator' and e.get('opcode') in ('!=', '==') and any(strip(x_).get('kind') in ('CXXNullPtrLiteralExpr', 'GNUNullExpr') or nf(x_) == 'nullptr' for x_ in e['inner']):
+            o_ = [x_ for x_ in e['inner'] if nf(x_) != 'nullptr']
+            if len(o_) == 1 and nf(o_[0]) in ('n.before', 'n.after_or_equal'):
+                return asg[nf(o_[0])] == (e['opcode'] == '!=')
+        if k == 'UnaryOperator' and e.get('opcode') == '!':
+            return not bval(e['inner'][0], asg, depth + 1)
+        if k == 'BinaryOperator' and e.get('opcode') == '&&':
+            return bval(e['inner'][0], asg, depth + 1) and bval(e['inner'][1], asg, depth + 1)
+        if k == 'BinaryOperator' and e.get('opcode') == '||':
+            return bval(e['inner'][0], asg, depth + 1) or bval(e['inner'][1], asg, depth + 1)
+        if k == 'BinaryOperator' and e.get('opcode') in ('==', '!=') and 'bool' in (dtype(e['inner'][0]) or '') + (qtype(strip(e['inner'][0])) or ''):
+            return (bval(e['inner'][0], asg, depth + 1) == bval(e['inner'][1], asg, depth + 1)) == (e['opcode'] == '==')
+        if k == 'ConditionalOperator':
+            return bval(e['inner'][1] if bval(e['inner'][0], asg, depth + 1) else e['inner'][2], asg, depth + 1)
+        if k == 'CXXBoolLiteralExpr':
+            return bool(e.get('value'))
+        if k == 'DeclRefExpr' and depth < 6:
+            init = PM_.single(ref_decl(e))
+            if init is not None:
+                return bval(init, asg, depth + 1)
+        raise _Unk(c)
+    pushes = [x for x in walk(loop_body(lp[0])) if x.get('kind') == 'IfStmt' and any(call_name(c) in ('emplace_back', 'push_back') for c in walk(if_parts(x)[1]) if c.get('kind') == 'CXXMemberCallExpr')]
+    import itertools as _it
+    seen_child = set()
+    prune_bad, prune_und = None, None
+    for x in pushes:
+        cond, then, els = if_parts(x)
+        pc = [c for c in walk(then) if c.get('kind') == 'CXXMemberCallExpr' and call_name(c) in ('emplace_back', 'push_back')]
+        child = nf(call_args(pc[0])[0]) if len(pc) == 1 and call_args(pc[0]) else None
+        outer_if = enclosing(x, ('IfStmt',))
+        if child not in ('n.before', 'n.after_or_equal') or els is not None or any(y.get('kind') == 'IfStmt' for y in walk(then)) or (outer_if is not None and outer_if.get('_off', 0) > lp[0].get('_off', 0)):
+            prune_und = 'the frontier is extended under nested / else conditions'
+            continue
+        seen_child.add(child)
+        try:
+            for S_, M_, C_ in _it.product((False, True), repeat=3):
+                asg = {'S': S_, 'M': M_, 'n.before': C_ if child == 'n.before' else True, 'n.after_or_equal': C_ if child == 'n.after_or_equal' else True}
+                v = bval(cond, asg)
+                needed = C_ and not (S_ and (M_ if child == 'n.before' else not M_))
+                if v and not C_:
+                    prune_bad = prune_bad or '`%s` queues %s although it is null' % (nf(cond), child)
+                if needed and not v:
+                    prune_bad = prune_bad or '`%s` does not queue %s when %s and find_max=%s, where the %s may lie' % (nf(cond), child, 'the node splits on the target dimension' if S_ else 'the node splits on another dimension', M_, 'maximum' if M_ else 'minimum')
+        except _Unk as e_:
+            prune_und = 'condition atom `%s`' % e_
+    if prune_bad:
+        ctx.bad(R, lab + '|min_max|pruning', lp[0], 'pruning: ' + prune_bad)
+    elif prune_und or seen_child != {'n.before', 'n.after_or_equal'}:
+        ctx.undecided(R, lab + '|min_max|pruning', lp[0], 'the frontier extension is not two guarded pushes the rule reads (%s)' % (prune_und or sorted(seen_child)))
+    else:
+        ctx.ok(R, lab + '|min_max|pruning', lp[0], 'each child is queued only when it exists and whenever it can hold the extreme (before unless split-on-target && max, after_or_equal unless split-on-target && min)')
+    # candidate update: `ret = n` happens under find_max && n > ret, or !find_max && n < ret (named
+    # coordinates are expanded; either operand order)
+    sites = [x for x in walk(loop_body(lp[0])) if x.get('kind') == 'BinaryOperator' and x.get('opcode') == '=' and nf(x) == '(ret = n)']
+    upd_bad, upd_und, dirs = None, None, set()
+    for x in sites:
+        M_ = None
+        rel_ = []
+        for n_, pol in atoms(path_facts(x)):
+            if _sl(nf(n_), x) == 'find_max':
+                M_ = pol
+                continue
+            r_ = relation(n_, pol)
+            if r_:
+                a_, o_, b_ = _sl(nf(r_[0]), x), r_[1], _sl(nf(r_[2]), x)
+                if a_ == 'ret.pt.at(target_dim)' and b_ == 'n.pt.at(target_dim)':
+                    a_, o_, b_ = b_, FLIP[o_], a_
+                if a_ == 'n.pt.at(target_dim)' and b_ == 'ret.pt.at(target_dim)':
+                    rel_.append(o_)
+        if M_ is None or len(rel_) != 1:
+            upd_und = 'the update at line %s is not guarded by find_max and one comparison of the two coordinates' % x.get('_line')
+            continue
+        dirs.add(M_)
+        if rel_[0] not in (('>', '>=') if M_ else ('<', '<=')):
+            upd_bad = upd_bad or 'with find_max=%s the candidate is replaced when n %s ret along the target dimension' % (M_, rel_[0])
+    if upd_bad:
+        ctx.bad(R, lab + '|min_max|update', lp[0], 'candidate update: ' + upd_bad)
+    elif upd_und or dirs != {True, False}:
+        ctx.undecided(R, lab + '|min_max|update', lp[0], upd_und or 'candidate updates found for find_max in %s only' % sorted(dirs))
+    else:
+        ctx.ok(R, lab + '|min_max|update', lp[0], 'a more extreme point replaces the candidate (greater for max, smaller for min)')
     seed = [c for c in walk(body_of(fm)) if c.get('kind') == 'CXXMemberCallExpr' and call_name(c) == 'emplace_back' and enclosing(c, LOOPS) is None]
     ctx.check(len(seed) == 1 and canon(call_args(seed[0])[0]) == 'n', R, lab + '|min_max|seed', fm, 'frontier seeded with the subtree root', 'frontier seed changed')
 
